@@ -567,19 +567,25 @@ class Path(Expression):
                 self.path.append(segment)
 
     def __str__(self) -> str:
+        return self._str(nested=False)
+
+    def _str(self, *, nested: bool) -> str:
         it = iter(self.path)
         root = next(it)
-        if isinstance(root, Path) or not isinstance(root, str):
+        if isinstance(root, Path):
+            buf = [f"[{root._str(nested=True)}]"]
+        elif not isinstance(root, str):
             buf = [f"[{root}]"]
         elif RE_PROPERTY.fullmatch(root) and not (
-            len(self.path) == 1 and root in RESERVED_WORDS
+            # Inside brackets a lone word is always read as a variable.
+            not nested and len(self.path) == 1 and root in RESERVED_WORDS
         ):
             buf = [root]
         else:
             buf = [f"[{_quote_string(_escape_string(root))}]"]
         for segment in it:
             if isinstance(segment, Path):
-                buf.append(f"[{segment}]")
+                buf.append(f"[{segment._str(nested=True)}]")
             elif isinstance(segment, str):
                 if RE_PROPERTY.fullmatch(segment):
                     buf.append(f".{segment}")
@@ -920,6 +926,7 @@ class Filter:
             ArithmeticError,
             LookupError,
             AttributeError,
+            OSError,
         ) as err:
             raise LiquidTypeError(
                 f"{self.name}: {_str(err)}", token=self.token
@@ -940,6 +947,7 @@ class Filter:
             ArithmeticError,
             LookupError,
             AttributeError,
+            OSError,
         ) as err:
             raise LiquidTypeError(
                 f"{self.name}: {_str(err)}", token=self.token
